@@ -136,7 +136,7 @@ func judgeEmissions(a *sm.ASpec, w *core.Walked, v *ev.Verdict) (failedAfterEmit
 						if op.Op == "emit" {
 							emitsFirst = true
 						}
-						if op.Op == "throw" || op.Op == "outNaN" || op.Op == "spin" || op.Op == "returnScalar" {
+						if op.Op == "throw" || op.Op == "outNaN" || op.Op == "spin" || op.Op == "returnScalar" || op.Op == "returnTrap" {
 							break
 						}
 					}
